@@ -146,6 +146,9 @@ def rules(ctx: Ctx) -> None:
     from .common import import_rules
 
     import_rules(ctx, "C03", {"R03.1": "R06.7"})
+    # R06.9 (= R14.2, construction sites): the owner of a source column and the table-level read are the same table only if both are built
+    # with the same schema fallback; a schema name fixed in the code at one site parts them as soon as a default schema is configured
+    import_rules(ctx, "C14", {"R14.2": "R06.9"}, key_filter=lambda o: o.key.startswith("table-site:"))
 
     # ---- R06.8 no statement reads a loop variable after its loop -----------------------------------------------------------
     # (what is left in it is the last element in iteration order - or nothing, for an empty sequence; an owner or edge taken from it belongs to an arbitrary candidate)
@@ -160,3 +163,7 @@ def rules(ctx: Ctx) -> None:
             ctx.ob("R06.8", f"loop-variable-not-used-after-its-loop:{f.owner}:{use.id}", False, loc(f.mod, use),
                    f"`{use.id}` is read after `for {u(L.target)} in {u(L.iter)[:40]}` (line {L.lineno}) ended without break: it names whichever element came last")
     ctx.ob("R06.8", "loop-variable-not-used-after-its-loop:scanned", True, "sqllineage/", f"{n_loops} loops scanned", trivial=True)
+
+    # ---- R06.10 (= R01.5): every place a sub-query can stand is walked at table level as it is at column level - a clause the table-level
+    # walk skips makes the column paths start at a table the statement is not reported to read
+    import_rules(ctx, "C01", {"R01.5": "R06.10"})
